@@ -312,7 +312,8 @@ Definition add_ranges (acc new : list region) : list region :=
 Fixpoint chain_from (fuel : nat) (good : list region) (k : string) : bool :=
   match fuel with
   | O => false
-  | S n => existsb (fun r => String.eqb (r_start r) k && (key_empty (r_end r) || chain_from n good (r_end r))) good
+  (* written with `if`: vm_compute is call-by-value, `&&` / `||` would evaluate the recursive call for every region *)
+  | S n => existsb (fun r => if String.eqb (r_start r) k then (if key_empty (r_end r) then true else chain_from n good (r_end r)) else false) good
   end.
 
 Definition memZ' (x : Z) (l : list Z) : bool := existsb (Z.eqb x) l.
@@ -363,7 +364,9 @@ Definition mon_step (m : mon) (o : op) (prev cur : obs) : mon * list string :=
          match f_save f with
          | Some (0%nat, _) =>
              (* the first save of this operation failed: a change can only come from a later, successful switch *)
-             if changed && Nat.leb (length (o_files cur)) 1 then ["C19:failed-persist-changed-served-status"] else []
+             (* (a switch to majority mode hides the status: that is not a change of it) *)
+             if changed && (match cs with Some _ => true | None => false end) && Nat.leb (length (o_files cur)) 1
+             then ["C19:failed-persist-changed-served-status"] else []
          | _ => []
          end
      | _ => []
